@@ -272,7 +272,7 @@ func (e *Env) Finish(out kernel.Outcome) {
 	e.Res.SchedDigest = fmt.Sprintf("%016x", out.SchedDigest)
 	e.Fault("sched-tie", out.Ties)
 	if out.Livelock {
-		e.Res.Inconclusive = "zero-time livelock (step budget exhausted without the clock advancing)\n" + out.HangDump
+		e.Res.Inconclusive = "step budget exhausted (zero-time livelock, or a run too expensive to finish)\n" + out.HangDump
 	}
 	if out.Anon > 0 {
 		e.Res.HarnessError = fmt.Sprintf("%d goroutine(s) reached a hook without a role", out.Anon)
